@@ -191,9 +191,13 @@ PROPS = {
             {"id": "syncloop-fault", "func": "VerifSyncLoop", "pkg": NODE, "pkgname": "node", "load": ["./node"],
              "params": {"quick": {"mode": 1}, "thorough": {"mode": 1}},
              "must_cover": ["completed", "dev-payout-at-2nd-block", "old-burn-zeroing", "v204-mint"], "max_witness_replays": 8},
+            dict(txblock("txblock-fault", {"maxentries": 1, "kindset": 1, "fault": 1}, {"maxentries": 1, "kindset": 0, "fault": 1}),
+                 must_cover=["fault-failed-block"]),
+            dict(holding("holding-fault", {"maxheld": 1, "fault": 1, "fixrates": 1}, {"maxheld": 1, "fault": 1}),
+                 must_cover=["fault-failed-block", "fault-ended-process"]),
         ],
         "wall": {"quick": 400, "thorough": 3000},
-        "bounds": {"quick": "as C02's loop harness with the fault oracle: EVERY single DB-API call of the run fails once (error, no effect), or one of the first 8 upstream Factom requests fails once; the loop's own retry then completes the sync", "thorough": "same"},
+        "bounds": {"quick": "as C02's loop harness with the fault oracle: EVERY single DB-API call of the run fails once (error, no effect), or one of the first 8 upstream Factom requests fails once; the loop's own retry then completes the sync; plus the per-block units with content: ApplyTransactionBlock over 1 entry of every kind and the holding pass (SyncBank + ApplyTransactionBatchesInHolding) over 1 held conversion, each with EVERY single DB-API call of the unit failing once, compared against the same symbolic scenario run without a fault (a unit that reports success must have left exactly the fault-free store)", "thorough": "same, all entry kinds / symbolic rates"},
         "assumptions": ["single transient fault per run; faults inside multiFetch's goroutines are not modelled (blocks have no entries here); a failed COMMIT leaves nothing applied (go-sqlite3 rolls back)",
                         "log.Fatal (process exit after an unrecoverable rollback error) counts as 'not committed short'"],
     },
